@@ -26,7 +26,7 @@ type T struct {
 
 // V: a value as the model sees it.
 type V struct {
-	K    string  `json:"k"` // bool int f32 f64 bytes binnil errnil err pid names ref anynil any nil list map
+	K    string  `json:"k"` // bool int f32 f64 bytes binnil errnil err pid names ref anynil any nil list map marsh (S = state of a marshaler value)
 	B    bool    `json:"b,omitempty"`
 	I    int64   `json:"i,omitempty"`
 	U    uint64  `json:"u,omitempty"` // uint values, float bits, pid id
@@ -172,6 +172,12 @@ func toGo(rt reflect.Type, v *V) reflect.Value {
 		}
 		out.Set(toGo(goType(v.T), v.X))
 		return out
+	case hmarType:
+		out.Set(reflect.ValueOf(HMar{Data: append([]byte{}, v.S...)}))
+		return out
+	case hbinType:
+		out.Set(reflect.ValueOf(HBin{S: string(v.S)}))
+		return out
 	}
 	switch rt.Kind() {
 	case reflect.Bool:
@@ -266,6 +272,10 @@ func fromGo(rv reflect.Value) *V {
 		}
 		e := rv.Elem()
 		return &V{K: "any", T: modelType(e.Type()), X: fromGo(e)}
+	case hmarType:
+		return &V{K: "marsh", S: append([]byte{}, rv.Interface().(HMar).Data...)}
+	case hbinType:
+		return &V{K: "marsh", S: []byte(rv.Interface().(HBin).S)}
 	}
 	if _, isReg := regByType[rt]; !isReg && rt.Implements(errType) {
 		return errToV(rv.Interface().(error))
@@ -493,6 +503,8 @@ func coqV(v *V) string {
 		return fmt.Sprintf("(VRef %s %s %d %d %d)", coqBytes(v.Node), coqZ(v.Cr), v.ID[0], v.ID[1], v.ID[2])
 	case "anynil":
 		return "VAnyNil"
+	case "marsh":
+		return "(VMarsh " + coqBytes(v.S) + ")"
 	case "any":
 		return "(VAny " + coqT(v.T) + " " + coqV(v.X) + ")"
 	case "nil":
@@ -533,6 +545,16 @@ func coqPrelude() string {
 		fmt.Fprintf(&sb, "Definition rn_%s : bytes := hx \"%s\".\n", r.Short, hex.EncodeToString([]byte(r.Name)))
 		var def string
 		rt := r.Type
+		switch {
+		case rt == hmarType:
+			def = "RMarsh mar_xor unmar_xor"
+		case rt == hbinType:
+			def = "RMarsh mar_rev unmar_rev"
+		}
+		if def != "" {
+			ents = append(ents, fmt.Sprintf("(rn_%s, %s)", r.Short, def))
+			continue
+		}
 		switch rt.Kind() {
 		case reflect.Struct:
 			var fs []string
